@@ -14,6 +14,8 @@ paths of the CFG.
 from .cfg import cfg_of, PathBoundExceeded
 from .dataflow import defs_in_element, ASSIGN_OPS, local_ref, written_locals
 
+import re as _re
+CAS_RE = _re.compile(r"^std::(atomic|__atomic_base)::compare_exchange_(weak|strong)$")
 NULL = ("null",)
 
 
@@ -163,6 +165,13 @@ def simplify_cond(sv, assume):
         if inner is not sv[1]:
             return ("bool", inner) if not is_const(inner) else inner
     return sv
+
+
+def resolve_cas(st, atom, succeeded):
+    """a branch decided the result `atom` of a compare_exchange: fix the value of its expected variable"""
+    for var, v in list(st.env.items()):
+        if isinstance(v, tuple) and len(v) == 3 and v[0] == "casexp" and v[2] == atom:
+            st.env[var] = v[1] if succeeded else ("casfail", v[2])
 
 
 class Event:
@@ -340,6 +349,7 @@ class PathSim:
                 st2 = st.fork()
                 if known is None:
                     st2.assume[atom] = (outcome == pol)
+                resolve_cas(st2, atom, outcome == pol)
                 st2.events.append(Event("branch", (b, len(blk.elems)), condn, val=csv, extra=(term["k"], outcome)))
                 self._walk(s, st2, blocks, visits)
             return
@@ -662,7 +672,16 @@ class PathSim:
         st.events.append(ev)
         if rec_val is None:
             # side effects: by-ref locals are overwritten; member state may change
-            self._havoc_refargs(e, st)
+            if q and CAS_RE.search(q) and e.get("args"):
+                # compare_exchange(expected&, desired): expected keeps its value on success and is overwritten on failure;
+                # which of the two holds is decided when a branch tests the call's result
+                d = local_ref(F, e["args"][0])
+                if d is not None:
+                    st.env[d] = ("casexp", st.env.get(d, ("init", d)), val)
+                else:
+                    self._havoc_refargs(e, st)
+            else:
+                self._havoc_refargs(e, st)
             if e.get("mem") and e.get("op") in ASSIGN_OPS | {"++", "--"}:
                 d = local_ref(F, e.get("obj"))
                 if d is not None:
